@@ -249,7 +249,11 @@ pub fn dispatch(name: &str, args: &[&str]) -> Option<String> {
                             r = r.with_cookie(Cookie::new(unhex_str(n), unhex_str(v)));
                         }
                     }
-                    match r.with_redirects(args[3] == "1").send() {
+                    // "d": the builder's default (with_redirects never called)
+                    if args[3] != "d" {
+                        r = r.with_redirects(args[3] == "1");
+                    }
+                    match r.send() {
                         Ok(resp) => {
                             let code: u16 = resp.status_code.into();
                             format!(
